@@ -415,7 +415,7 @@ func vpC17_O5() {
 	proof := squareFreeBuildProof(N, phi, challenge, index)
 	vpAssert("square-free proof has one response per round", squareFreeVerifyStructure(proof) && len(proof.Responses) == squareFreeIters)
 	vchallenge, vindex := challenge, index
-	tamper := vpChoose("tamper", 5)
+	tamper := vpChoose("tamper", 6)
 	d := vpBigRange("delta", big.NewInt(1), big.NewInt(1<<30))
 	switch tamper {
 	case 1:
@@ -427,6 +427,8 @@ func vpC17_O5() {
 		vindex = vpAddBig(index, big.NewInt(1))
 	case 4:
 		proof.Responses = proof.Responses[:squareFreeIters-1]
+	case 5: // two responses exchanged (each response belongs to its own challenge)
+		proof.Responses[0], proof.Responses[1] = proof.Responses[1], proof.Responses[0]
 	}
 	ok := squareFreeVerifyProof(N, vchallenge, vindex, proof)
 	if tamper == 0 {
